@@ -150,3 +150,55 @@ func VerifC13Notify() {
 	verifnd.Reach("C13.done")
 	verifnd.Reach("C13.step." + stepName)
 }
+
+// VerifC13Many: a large session (20 members, all but the author subscribed to the type, on CONCRETE data:
+// enumeration, no solver): a component add, update and delete by the author notifies every subscriber exactly
+// once each and never the author; an unsubscribed member only sees the add and delete relays addressed to all.
+func VerifC13Many() {
+	w := newVWorld(0)
+	author := w.newConn()
+	author.mustJoin("")
+	const n = 19
+	subs := make([]*vConn, n)
+	for i := range subs {
+		subs[i] = w.newConn()
+		subs[i].mustJoin(author.sid)
+	}
+	m := author.expectOne(&hagallpb.EntityComponentTypeAddRequest{Type: hagallpb.MsgType_MSG_TYPE_ENTITY_COMPONENT_TYPE_ADD_REQUEST, Timestamp: vts(), RequestId: 8, EntityComponentTypeName: vTypeName},
+		hagallpb.MsgType_MSG_TYPE_ENTITY_COMPONENT_TYPE_ADD_RESPONSE, "setup.many.type_add")
+	var tr hagallpb.EntityComponentTypeAddResponse
+	m.DataTo(&tr)
+	tid := tr.EntityComponentTypeId
+	unsub := verifnd.Choice(n) // one member stays unsubscribed
+	for i, c := range subs {
+		if i != unsub {
+			c.expectSubscribe(tid)
+		}
+	}
+	e := author.addEntity(false, &hagallpb.Pose{})
+	w.drainAll()
+	count := func(msgs []hwebsocket.Msg, t hagallpb.MsgType) int { return countType(msgs, t) }
+	step := func(req hwebsocket.ProtoMsg, bt hagallpb.MsgType, toAll bool, what string) {
+		author.do(req)
+		verifnd.FireTickers(vFrame)
+		author.pump()
+		verifnd.Assert(count(author.drain(), bt) == 0, "C13.many.author_not_notified", what)
+		for i, c := range subs {
+			got := count(c.drain(), bt)
+			want := 1
+			if i == unsub && !toAll {
+				want = 0
+			}
+			verifnd.Assert(got == want, "C13.many.each_subscriber_exactly_once", what)
+		}
+	}
+	// add and delete relays go to every member when the type has a subscriber; updates only to subscribers
+	step(&hagallpb.EntityComponentAddRequest{Type: hagallpb.MsgType_MSG_TYPE_ENTITY_COMPONENT_ADD_REQUEST, Timestamp: vts(), RequestId: 10, EntityComponentTypeId: tid, EntityId: e, Data: []byte{1}},
+		hagallpb.MsgType_MSG_TYPE_ENTITY_COMPONENT_ADD_BROADCAST, true, "add")
+	author.dispatch(&hagallpb.EntityComponentUpdate{Type: hagallpb.MsgType_MSG_TYPE_ENTITY_COMPONENT_UPDATE, Timestamp: vts(), EntityComponentTypeId: tid, EntityId: e, Data: []byte{2}})
+	step(&hagallpb.Request{Type: hagallpb.MsgType_MSG_TYPE_PING_REQUEST, Timestamp: vts(), RequestId: 11},
+		hagallpb.MsgType_MSG_TYPE_ENTITY_COMPONENT_UPDATE_BROADCAST, false, "update")
+	step(&hagallpb.EntityComponentDeleteRequest{Type: hagallpb.MsgType_MSG_TYPE_ENTITY_COMPONENT_DELETE_REQUEST, Timestamp: vts(), RequestId: 12, EntityComponentTypeId: tid, EntityId: e},
+		hagallpb.MsgType_MSG_TYPE_ENTITY_COMPONENT_DELETE_BROADCAST, true, "delete")
+	verifnd.Reach("C13.many.done")
+}
